@@ -126,6 +126,14 @@ def chownOkB (env : Env) (t : T) (p : Str) (rc : Bool) : Bool :=
      t.nodes.all (fun kv => !(vis t rc a kv.1) || !isLinkKind kv.2.kind)
    | _ => true)
 
+/-- the domain of an octal `chmod` on one argument: keys round-trip and `abs` is idempotent on the
+    resolved path (links may be anywhere: they are skipped by both sides) -/
+def chmodOkB (env : Env) (t : T) (p : Str) : Bool :=
+  keysRT env t &&
+  (match resolve env t p with
+   | .ok a => decide (resolve env t (renderP a) = .ok a)
+   | _ => true)
+
 /-- the resolved argument is not a link -/
 def notLinkArg (env : Env) (t : T) (p : Str) : Bool :=
   match resolve env t p with
@@ -140,6 +148,9 @@ def opOk (env : Env) (t : T) : Op → Bool
   -- S12 (shared with Memfs, class `empty_lines_noop`): an empty text is not written at all
   | .writeLines _ ls | .appendLines _ ls => (joinLines ls).isSome
   | .appendLine _ l => decide (l ≠ [])
+  -- S11 (shared with Memfs, class `chmod_zero`): mode 0 is read as "not given"; symbolic modes: OPEN
+  | .chmod p m => decide (m ≠ 0) && chmodOkB env t p
+  | .chmodB p c => decide (c.sym = []) && chmodOkB env t p
   -- S16: `chown(2)` follows links
   | .chown p _ _ => chownOkB env t p true
   | .chownB p c => chownOkB env t p c.recursive
@@ -476,7 +487,7 @@ def CoveredS : Op → Bool
   | .setCwd _ | .mkfile _ | .writeAll _ _ | .appendAll _ _ | .remove _ | .removeAll _ | .symlink _ _
   | .writeLines _ _ | .appendLines _ _ | .appendLine _ _ | .readLines _ | .mkdirP _ | .mkdirM _ _ | .moveP _ _
   | .paths _ | .dirs _ | .files _ | .allPaths _ | .allDirs _ | .allFiles _
-  | .chown _ _ _ | .chownB _ _ => true
+  | .chown _ _ _ | .chownB _ _ | .chmod _ _ | .chmodB _ _ => true
   | _ => false
 
 end Rivia.Lemmas.StdfsL
